@@ -153,6 +153,12 @@ InC02Domain(t, o) ==
      ELSE IF t \in {9, 11} THEN Len(o["ReasonCodes"]) > 0
      ELSE TRUE
 
+(* keys on which two accessor records differ (Will compared on the will fields) *)
+ObsDiffModel(a, b) ==
+  {x \in DOMAIN a : IF x \notin DOMAIN b THEN TRUE
+                    ELSE IF x = "Will" THEN ~(a[x].has = b[x].has /\ (a[x].has => a[x].val = b[x].val))
+                    ELSE a[x] # b[x]}
+
 (***************************************************************************)
 (*                               actions                                   *)
 (***************************************************************************)
